@@ -50,7 +50,7 @@ func histStr(h []Op) string {
 // alphabet
 // ---------------------------------------------------------------------------
 
-var ttlAlpha = []*int{nil, intp(0), intp(5), intp(30), intp(7200)}
+var ttlAlpha = []*int{nil, intp(0), intp(3), intp(5), intp(30), intp(7200)}
 
 func rAlpha(leeway int) []*int {
 	return []*int{nil, intp(3600), intp(leeway + 1), intp(leeway), intp(leeway - 1), intp(1), intp(0), intp(-1)}
